@@ -38,7 +38,7 @@ def run(ck):
     if quick:
         names = [n for n in names if n != 'c20_relative_3dirs_not_posix']
     hs = [H(n, cap=1800, meaning=INST[n]) for n in names]
-    kprop.run_harnesses(ck, hs)
+    kprop.run_harnesses(ck, hs, on_fail=lambda B, h: on_fail(ck, B, h))
     engine_a_part(ck)
     ck.functions += ['TimeZoneSettings::parse_posix_tz', 'TimeZoneSettings::read_tz_file (+ closures)', 'TimeZoneSettings::new', 'parse::parse_posix_tz (real, on the concrete fallback strings)', 'TimeZone::new']
     ck.explanation = 'CBMC explores every file-system response table for each listed TZ value and asserts the exact read sequence and result class; the path template and its arguments are read from the MIR.'
@@ -104,5 +104,46 @@ def engine_a_part(ck):
             ck.functions.append(f)
 
 
+
+
+# ---------------------------------------------------------------- native replay of a failed instance
+CASES = {
+    'c20_localtime': ('localtime', ['/a'], False), 'c20_colon_relative_2dirs': (':X', ['/a', '/b'], False), 'c20_relative_2dirs_not_posix': ('X', ['/a', '/b'], False),
+    'c20_relative_3dirs_not_posix': ('X', ['/a', '/b', '/c'], False), 'c20_absolute': ('/abs', ['/a'], False), 'c20_colon_absolute': (':/abs', ['/a'], False),
+    'c20_trimmed_fallback': (' UTC0 ', ['/a'], True), 'c20_no_dirs_posix': ('UTC0', [], True), 'c20_empty': ('', ['/a'], False),
+}
+
+
+def native_instance(nat, name):
+    """every file-system response table of the instance, natively, against the reference; first mismatch or None"""
+    import itertools, tzsetref
+    tz, dirs, pok = CASES[name]
+    for resp in itertools.product((0, 1, 2), repeat=max(1, len(dirs))):
+        cmd = f'resolve {tz.encode().hex() or "-"} {"".join(map(str, resp))} ' + ' '.join(d.encode().hex() for d in dirs)
+        out = nat.both([cmd])[0]
+        want_reads, want_class = tzsetref.expected(tz, dirs, list(resp), lambda s: pok)
+        for o in out:
+            if o.startswith('panic'):
+                return f'{name}: `{cmd}` panics', {'cmd': cmd, 'name': name}
+            cls = o.split()[1]
+            reads = [bytes.fromhex(x).decode() for x in o.split('[')[1].rstrip(']').split(',') if x]
+            if cls != want_class or reads != want_reads:
+                return (f'TZ value {tz!r}, directories {dirs}, file system {["valid", "malformed", "unreadable"][resp[0]] if len(resp) == 1 else [["valid", "malformed", "unreadable"][r] for r in resp]}: '
+                        f'reads {reads} -> {cls}; tzset rules prescribe reads {want_reads} -> {want_class}', {'cmd': cmd, 'name': name})
+    return None
+
+
+def on_fail(ck, B, h):
+    nat = common.Native()
+    r = native_instance(nat, h.name) if h.name in CASES else None
+    if r:
+        ck.violation(f'{h.name}: {r[0]}', r[1])
+    else:
+        ck.inconclusive.append(f'{h.name} FAILED ({h.failed_checks[:3]}) but no file-system table reproduces a deviation natively (stub contract problem?)')
+
+
 def replay(ck, case):
-    return 1
+    nat = common.Native()
+    r = native_instance(nat, case['case']['name'])
+    print('violates:', r[0] if r else None)
+    return 1 if r else 0
